@@ -15,6 +15,7 @@ HANDLERS = {
     "rt": ("harness.py.dec_cmd", "run_rt"),
     "lcd_py": ("harness.py.lcd_cmd", "run"),
     "kbd_py": ("harness.py.kbd_cmd", "run"),
+    "mem_py": ("harness.py.mem_cmd", "run"),
 }
 
 
